@@ -645,9 +645,9 @@ class HandshakeSettings(object):
             raise ValueError("maxVersion set incorrectly")
 
         # versions negotiated through the supported_versions extension
-        # need to respect the configured limits too
+        # need to respect the configured maximum too
         other.versions = [i for i in other.versions
-                          if other.minVersion <= i <= other.maxVersion]
+                          if i <= other.maxVersion]
 
     @staticmethod
     def _sanityCheckEMSExtension(other):
